@@ -31,7 +31,14 @@ func c09Prefix(k ref.CartKind, i int) []c08Ev {
 		if k == ref.KMBC1 {
 			p = append(p, c08Ev{0x6000, 1})
 		}
-		for b := uint8(0); b < 3; b++ {
+		banks := []uint8{0, 1, 2}
+		switch k {
+		case ref.KMBC3:
+			banks = append(banks, 5, 7) // the selections above 03 exist on the 64 KiB parts only; they wrap on smaller ones
+		case ref.KMBC5:
+			banks = append(banks, 9, 15)
+		}
+		for _, b := range banks {
 			p = append(p, c08Ev{sel, b}, c08Ev{0xa000, 0x11 * (b + 1)}, c08Ev{0xbfff, 0x21 + b})
 		}
 		return append(p, c08Ev{0x0000, 0x00})
@@ -238,8 +245,8 @@ func init() {
 					k, _ := ref.KindOf(j.spec.Type)
 					n := len(c09Alphabet(k, 0, j.spec.Type == 0x0f || j.spec.Type == 0x10))
 					for pre := 0; pre < 3; pre++ {
-						if pre > 0 && (k == ref.KNone || k == ref.KMBC2 || j.spec.RAMCode < 3 || (j.spec.RAMCode > 3 && !(k == ref.KMBC5 && j.spec.RAMCode == 4))) {
-							continue // the histories only matter with several banks; large configurations are covered by MBC5/128 KiB
+						if pre > 0 && (k == ref.KNone || k == ref.KMBC2 || j.spec.RAMCode < 3 || (j.spec.RAMCode > 3 && !(k == ref.KMBC5 && j.spec.RAMCode == 4) && !(k == ref.KMBC3 && j.spec.RAMCode == 5))) {
+							continue // the histories only matter with several banks; large configurations are covered by MBC5/128 KiB and MBC3/64 KiB (the sizes that use every selectable bank)
 						}
 						d := j.depth
 						if pre > 0 && d > 3 {
